@@ -58,7 +58,14 @@ FltOps == IntOps \cup {"sqrt", "div", "exp", "log", "sin", "cos", "tan", "tanh",
                        "isnan", "isinf", "isfinite"}
 TableCases == { [mode |-> "table", op |-> o, T |-> t, N |-> n] : o \in FltOps, t \in Types, n \in {3, 8, 17, 35} }
 KeepTable(x) == (x.T \in {"i32", "i64"} => x.op \in IntOps) /\ ((Len(x.op) * 7 + x.N + TI(x.T) * 3 + Seed) % TableQuota = 0)
-Cases == {x \in TableCases : KeepTable(x)} \cup {x \in ArCases(A1, 1) : KeepAr(x, Quota)}
+\* complex element type: ring operations only (unary minus, + - *), scalar on either side
+RECURSIVE RingTree(_)
+RingTree(e) == CASE e.k = "t" -> e.n \in {"a", "b", "c"} [] e.k = "s" -> TRUE [] e.k = "neg" -> RingTree(e.x)
+                 [] e.k \in {"add", "sub", "mul"} -> RingTree(e.l) /\ RingTree(e.r) [] OTHER -> FALSE
+CxCases == { [tree |-> e, aop |-> Aops[ai], N |-> n, T |-> "c64", bool |-> 0] :
+               e \in {t \in A1 \cup (IF Depth2 = 1 THEN A2 ELSE {}) : RingTree(t)}, ai \in 1..4, n \in {1, 2, 3, 4, 5, 8, 9} }
+KeepCx(x) == HK(x.tree, x.N, AI(x.aop) * 5) % (IF x.tree \in A1 THEN Quota \div 3 + 1 ELSE Quota * 12) = 0
+Cases == {x \in CxCases : KeepCx(x)} \cup {x \in TableCases : KeepTable(x)} \cup {x \in ArCases(A1, 1) : KeepAr(x, Quota)}
          \cup (IF Depth2 = 1 THEN {x \in ArCases(A2, 1) : KeepAr(x, Quota * 40)} ELSE {})
          \cup DivCases
          \cup {x \in BoolCases : HK(x.tree, x.N, TI(x.T)) % (Quota * 3) = 0}
@@ -70,7 +77,7 @@ Spec == Init /\ [][Next]_c
 \* generator obligation: on representative data every emitted tree is in the exactness domain
 Env0 == [a |-> <<-6, 0, 5, 3>>, b |-> <<4, -3, 0, 6>>, c |-> <<-1, 2, -5, 6>>, q |-> <<0, 1, 36, 25>>, d |-> <<1, -2, 3, -3>>, m |-> <<-4, 6, 0, 2>>]
 IsTable == "mode" \in DOMAIN c
-DomainOK == IsTable \/ InDomain(c.tree, Env0, 4)
+DomainOK == IsTable \/ (c.T = "c64" /\ RingOnly(c.tree)) \/ InDomain(c.tree, Env0, 4)
 BoolFlagOK == IsTable \/ ((c.bool = 1) <=> IsBoolKind(c.tree))
 Emit == PrintT(<<"PLAN", ToJson(c)>>)
 =====================================================================================
